@@ -17,7 +17,9 @@ RULE = ("three monitors on scratch directory trees: (contain) random layouts - a
         "(exact hits, near misses, symbolic names, component names); (write) Hydration persistence with save_as variants "
         "and '..' paths, collected paths that are symlinks (raw and text kinds), commands with shell quoting (the executed argv is "
         "mapped back to the command line as the spec writes it before deny entries are matched), tree snapshot + audit events + "
-        "byte comparison of every source file before/after; one evaluation = one probe / one collection run; non-trivial = the "
+        "byte comparison of every source file before/after; (collect) complete collections through insights.collect.collect() in "
+        "child interpreters with a throw-away spec package, a manifest enabling it by prefix and a user deny list; deny probes "
+        "with the root of a real host and 1-3 leading slashes; one evaluation = one probe / one collection run; non-trivial = the "
         "probe involves a symlink, a '..' segment or a prefix-sharing sibling (contain), the deny list has a hit and a "
         "near miss (deny), a save_as or '..' path (write); distinct by hash of the case")
 ASSUMPTIONS = [
@@ -47,7 +49,7 @@ REACH = [
 PLAN = {
     "quick": {"shards": 8, "cases": 300, "timeout_s": 900, "min_evaluations": 9000,
               "min_counters": {"providers_returned": 1600, "contents_read": 1600, "deny_runs": 120, "audit_events_seen": 6000,
-                               "files_persisted": 400}},
+                               "files_persisted": 400, "complete_collections_with_allowed_content_persisted": 40}},
     "thorough": {"shards": 16, "cases": 2400, "timeout_s": 3300, "min_evaluations": 60000,
                  "min_counters": {"providers_returned": 12000}},
 }
@@ -73,7 +75,159 @@ def directed(tier):
 # --------------------------------------------------------------------------
 # generation
 # --------------------------------------------------------------------------
+COLLECT_CHILD = r"""
+import json, logging, os, sys
+job = json.load(open(sys.argv[1]))
+top = job["top"]
+sys.path.insert(0, os.path.join(top, "mod"))
+events = []
+def hook(name, args):
+    try:
+        if name == "open" and isinstance(args[0], str) and args[0].startswith(top):
+            events.append(["open", args[0], str(args[1])])
+        elif name == "subprocess.Popen":
+            events.append(["popen", [str(a) for a in (args[1] if isinstance(args[1], (list, tuple)) else [args[1]])]])
+    except Exception:
+        pass
+sys.addaudithook(hook)
+logging.disable(logging.CRITICAL)
+from insights import collect
+out_root = os.path.join(top, "out")
+os.makedirs(out_root)
+res = {"events": events}
+try:
+    output_path, _ = collect.collect(manifest=job["manifest"], rm_conf=job["rm_conf"], tmp_path=out_root, archive_name="archive", compress=False)
+    res["output_path"] = output_path
+except Exception as ex:
+    res["raised"] = repr(ex)
+sys.stdout.write(json.dumps(res))
+"""
+
+
+def gen_collect(rng, tier):
+    """a complete collection through insights.collect.collect() in a child interpreter: a throw-away spec package, a manifest
+    that enables it by name prefix (as the shipped manifest does), and a deny list of the user"""
+    specs = []
+    for k in range(rng.randint(3, 6)):
+        kind = rng.choice(["file", "file", "cmd"])
+        specs.append({"name": "s%d" % k, "kind": kind})
+    deny = {"components": [], "files": [], "commands": []}
+    for s in specs:
+        r = rng.random()
+        if r < 0.25:
+            deny["components"].append(s["name"])                 # by component name
+        elif r < 0.4:
+            deny[rng.choice(["files", "commands"])].append("@symbolic:" + s["name"])   # by the spec's symbolic name
+        elif r < 0.55:
+            deny["files" if s["kind"] == "file" else "commands"].append("@literal:" + s["name"])   # by path / command line
+    return {"mode": "collect", "specs": specs, "deny": deny, "default_enabled": rng.random() < 0.3,
+            "prefix": rng.choice(["class", "package", "each"])}
+
+
+def run_collect_mode(spec, ctx):
+    import json
+    import subprocess
+    import textwrap
+    with Scratch() as top:
+        uid = next(_UID)
+        pkg = "vpc06_pkg_%d_%d" % (os.getpid(), uid)
+        os.makedirs(os.path.join(top, "mod"))
+        files, cmds, lines = {}, {}, []
+        for s in spec["specs"]:
+            if s["kind"] == "file":
+                p_ = os.path.join(top, "src", s["name"] + ".conf")
+                os.makedirs(os.path.dirname(p_), exist_ok=True)
+                with open(p_, "w") as fh:
+                    fh.write("CONTENT-OF-%s\n" % s["name"])
+                files[s["name"]] = p_
+                lines.append("    %s = simple_file(%r)" % (s["name"], p_))
+            else:
+                marker = os.path.join(top, "ran_" + s["name"])
+                cmds[s["name"]] = "/bin/sh -c 'echo CONTENT-OF-%s; echo x > %s'" % (s["name"], marker)
+                lines.append("    %s = simple_command(%r)" % (s["name"], cmds[s["name"]]))
+        with open(os.path.join(top, "mod", pkg + ".py"), "w") as fh:
+            fh.write("from insights.core.spec_factory import RegistryPoint, SpecSet, simple_command, simple_file\n\n\nclass Specs(SpecSet):\n" +
+                     "".join("    %s = RegistryPoint()\n" % s["name"] for s in spec["specs"]) + "\n\nclass Impl(Specs):\n" + "\n".join(lines) + "\n")
+        configs = [{"name": "insights.core.spec_factory", "enabled": True}]
+        if spec["prefix"] == "package":
+            configs.append({"name": pkg, "enabled": True})
+        elif spec["prefix"] == "class":
+            configs += [{"name": pkg + ".Specs", "enabled": True}, {"name": pkg + ".Impl", "enabled": True}]
+        else:
+            configs += [{"name": pkg + ".Specs", "enabled": True}] + [{"name": "%s.Impl.%s" % (pkg, s["name"]), "enabled": True} for s in spec["specs"]]
+        manifest = {"version": 0,
+                    "client": {"context": {"class": "insights.core.context.HostContext", "args": {"timeout": 10}},
+                               "blacklist": {"files": [], "commands": [], "patterns": [], "keywords": []},
+                               "persist": [{"name": pkg + ".Specs", "enabled": True}],
+                               "run_strategy": {"name": "serial", "args": {"max_workers": None}}},
+                    "plugins": {"default_component_enabled": bool(spec["default_enabled"]), "packages": [pkg], "configs": configs}}
+        rm_conf = {"components": ["%s.Impl.%s" % (pkg, n) for n in spec["deny"]["components"]], "files": [], "commands": []}
+        denied = set(spec["deny"]["components"])
+        for sect in ("files", "commands"):
+            for e in spec["deny"][sect]:
+                how, n = e.split(":", 1)
+                kind_ = [s["kind"] for s in spec["specs"] if s["name"] == n][0]
+                if how == "@symbolic":
+                    # a symbolic name is looked up among the shipped default specs only (insights.specs.default.DefaultSpecs):
+                    # for a foreign package it names nothing - kept in the list as a near miss
+                    rm_conf[sect].append(n)
+                else:
+                    rm_conf[sect].append(files[n] if kind_ == "file" else cmds[n])
+                    denied.add(n)
+        job = os.path.join(top, "job.json")
+        with open(job, "w") as fh:
+            json.dump({"top": top, "manifest": manifest, "rm_conf": rm_conf}, fh)
+        try:
+            cp = subprocess.run([sys.executable, "-c", COLLECT_CHILD, job], stdout=subprocess.PIPE, stderr=subprocess.PIPE, timeout=300, env=dict(os.environ))
+            doc = json.loads(cp.stdout.decode()) if cp.returncode == 0 else None
+        except (subprocess.TimeoutExpired, ValueError):
+            cp, doc = None, None
+        if doc is None or doc.get("raised"):
+            ctx.count("harness_errors")
+            ctx.sets.setdefault("harness_error_texts", set()).add("collect child: %s" % ((doc or {}).get("raised") or (cp.stderr.decode("utf-8", "replace")[-500:] if cp else "timeout")))
+            return False
+        ctx.count("complete_collections_through_collect")
+        outp = doc["output_path"]
+        stored = {}
+        for d_, _, ns in os.walk(outp):
+            for n_ in ns:
+                fp = os.path.join(d_, n_)
+                if os.sep + "meta_data" + os.sep in fp:
+                    continue
+                try:
+                    with open(fp, "rb") as fh:
+                        stored[fp] = fh.read().decode("utf-8", "replace")
+                except OSError:
+                    pass
+        w = {"deny": spec["deny"], "manifest_enables": spec["prefix"], "default_component_enabled": spec["default_enabled"]}
+        allowed_seen = 0
+        for s in spec["specs"]:
+            n = s["name"]
+            token = "CONTENT-OF-%s" % n
+            persisted = [fp for fp, txt in stored.items() if token in txt]
+            opened = s["kind"] == "file" and any(e[0] == "open" and e[1] == files[n] for e in doc["events"])
+            ran = s["kind"] == "cmd" and os.path.exists(os.path.join(top, "ran_" + n))
+            if n in denied:
+                ctx.count("denied_components_checked_in_complete_collections")
+                if opened:
+                    ctx.violation("deny-listed-file-opened", dict(w, component=n, through="insights.collect.collect"))
+                if ran:
+                    ctx.violation("deny-listed-command-executed", dict(w, component=n, through="insights.collect.collect"))
+                if persisted:
+                    ctx.violation("deny-listed-content-persisted", dict(w, component=n, where=[p.replace(top, "<top>") for p in persisted[:2]]))
+            elif persisted:
+                allowed_seen += 1
+        for fp in stored:
+            if not within(fp, outp):
+                ctx.violation("write-outside-output-directory", dict(w, path=fp.replace(top, "<top>")))
+        if allowed_seen:
+            ctx.count("complete_collections_with_allowed_content_persisted")
+        return bool(denied)
+
+
 def gen_case(rng, tier, idx):
+    if idx % 25 == 24:
+        return gen_collect(rng, tier)
     m = idx % 3
     if m == 0:
         return gen_contain(rng, tier)
@@ -241,6 +395,8 @@ def gen_write(rng, tier):
 
 
 def nontrivial(spec):
+    if spec["mode"] == "collect":
+        return True
     if spec["mode"] == "deny":
         return bool(spec["deny_files"] or spec["deny_cmds"] or spec["components"] or spec["symbolic"])
     return True
@@ -819,6 +975,8 @@ def _explained_by_dotdot(p, specs, out, root):
 
 def run_case(spec, ctx):
     m = spec["mode"]
+    if m == "collect":
+        return run_collect_mode(spec, ctx)
     if m == "contain":
         run_contain(spec, ctx)
         ctx.evaluations -= 1
